@@ -77,12 +77,14 @@ def node_to_dot(
 
     if add_self:
         if node._parent:
-            attr_def = {}
+            attr_def = {"label": node.name}
         else:  # __root__ inherits tree name by default
             attr_def = {"label": f"{name}", "shape": "box"}
 
         attr_str = _attr_str(attr_def, node_mapper, node)
         yield f"{indent}{_key(node)}{attr_str}"
+        # Don't define this node again, if a clone is found among the descendants
+        used_keys.add(_key(node))
 
     for n in node:
         if unique_nodes:
